@@ -1,0 +1,36 @@
+//go:build verif
+
+package streams
+
+// Contracts for govc (contract-based deductive verification; see /verif/DESIGN.md).
+// This file holds only comments and is compiled only with -tags verif.
+
+//@ type limitReadCloser
+//@   ghost N0 int
+//@   invariant self.N >= -1 || self.N0 < 0
+//@   invariant self.R != nil ==> (0 <= self.R.pos && self.R.pos <= self.R.total)
+//@   invariant (self.R != nil && self.N >= 0) ==> self.R.pos + self.N == self.N0
+//@   invariant (self.R != nil && self.N == -1 && self.N0 >= 0) ==> (self.R.pos == self.N0 + 1 && self.closed)
+
+//@ func (*limitReadCloser).Read
+//@   tags C16 C07
+//@   requires l != nil && inv(l)
+//@   modifies p[0:len(p)], l.N, l.closed, l.R.pos, l.R.closes
+//@   ensures inv(l)
+//@   ensures 0 <= n && n <= len(p)
+//@   ensures [C16.limit.bytes] l.R != nil ==> (forall k :: 0 <= k && k < n ==> p[k] == l.R.data[old(l.R.pos) + k])
+//@   ensures [C16.limit.atmost] (l.R != nil && old(l.N) >= 0) ==> old(l.R.pos) + n <= l.N0
+//@   ensures [C16.limit.nogap] (l.R != nil && l.N >= 0) ==> l.R.pos == old(l.R.pos) + n
+//@   ensures [C16.limit.eof] (err == io.EOF && !old(l.closed)) ==> (l.R.pos == l.R.total && l.R.total <= l.N0)
+//@   ensures [C16.limit.large] (l.R != nil && l.N < 0) ==> (err != nil && err != io.EOF)
+//@   ensures [C16.limit.close] (l.R != nil && old(l.N) >= 0 && l.N < 0) ==> (l.closed && l.R.closes == old(l.R.closes) + 1)
+//@   ensures [C16.limit.noclose] (l.R != nil && l.N >= 0) ==> (l.R.closes == old(l.R.closes) && l.closed == old(l.closed))
+//@   replay template limitreader
+//@   replay val N = l.N
+//@   replay val closed = l.closed
+//@   replay val plen = len(p)
+//@   replay val pos0 = l.R.pos
+//@   replay val total = l.R.total
+//@   replay val rn = call_Read_0_n
+//@   replay val reof = call_Read_0_err == io.EOF
+//@   replay val rnil = call_Read_0_err == nil
